@@ -129,6 +129,7 @@ func (ss *blobAccessMutableProtoStore[T, TProto]) Get(ctx context.Context, reduc
 			panic("Handle has bad write index")
 		}
 		handle.handlesToWriteIndex = -1
+		handle.writing = true
 		handlesToWrite = append(handlesToWrite, handleToWrite[T, TProto]{
 			handle:         handle,
 			message:        proto.Clone(TProto(&handle.message)),
@@ -165,12 +166,14 @@ func (ss *blobAccessMutableProtoStore[T, TProto]) Get(ctx context.Context, reduc
 		group.Go(func() error {
 			if err := ss.initialSizeClassCache.Put(ctxWithCancel, handleToWrite.handle.digest, buffer.NewProtoBufferFromProto(handleToWrite.message, buffer.UserProvided)); err != nil {
 				ss.lock.Lock()
+				handleToWrite.handle.writing = false
 				handleToWrite.handle.removeOrQueueForWriteLocked()
 				ss.lock.Unlock()
 				return util.StatusWrapf(err, "Failed to write mutable Protobuf message with digest %#v", handleToWrite.handle.digest.String())
 			}
 			ss.lock.Lock()
 			handleToWrite.handle.writtenVersion = handleToWrite.writingVersion
+			handleToWrite.handle.writing = false
 			handleToWrite.handle.removeOrQueueForWriteLocked()
 			ss.lock.Unlock()
 			return nil
@@ -226,6 +229,12 @@ type blobAccessMutableProtoHandle[T any, TProto interface {
 	// track of this index, so that we can remove the handle from
 	// the list if needed.
 	handlesToWriteIndex int
+
+	// Whether a write of this handle's message to storage is in
+	// progress. While that is the case, the handle may neither be
+	// discarded nor be queued for writing a second time, as the
+	// outcome of the write determines what needs to happen to it.
+	writing bool
 }
 
 func (sh *blobAccessMutableProtoHandle[T, TProto]) GetMutableProto() TProto {
@@ -258,7 +267,7 @@ func (sh *blobAccessMutableProtoHandle[T, TProto]) decreaseUseCount() {
 }
 
 func (sh *blobAccessMutableProtoHandle[T, TProto]) removeOrQueueForWriteLocked() {
-	if sh.useCount == 0 {
+	if sh.useCount == 0 && !sh.writing {
 		ss := sh.store
 		if sh.writtenVersion == sh.currentVersion {
 			// No changes were made to the message. Simply
@@ -281,7 +290,7 @@ func (sh *blobAccessMutableProtoHandle[T, TProto]) Release(isDirty bool) {
 	defer ss.lock.Unlock()
 
 	if isDirty {
-		sh.currentVersion = sh.writtenVersion + 1
+		sh.currentVersion++
 	}
 	sh.decreaseUseCount()
 }
